@@ -34,6 +34,7 @@ fn expect_panic<T>(ctx: &mut Ctx, clause: &str, case: &str, should_panic: bool, 
 
 fn finite_types(ctx: &mut Ctx) {
     ctx.begin_case("finite-types");
+    let light = ctx.light();
     // File
     for i in 0..8usize {
         let f = File::from_index(i);
@@ -131,7 +132,7 @@ fn finite_types(ctx: &mut Ctx) {
         if c.diag() as isize != want_diag || c.antidiag() != want_anti {
             v(ctx, "coord_diagonals", &format!("coord:{}", i), format!("diag {} antidiag {}", c.diag(), c.antidiag()));
         }
-        for delta in -70isize..=70 {
+        for delta in (-70isize..=70).filter(|d| !light || d % 7 == 0 || d.abs() > 60) {
             let t = i as isize + delta;
             let inside = (0..64).contains(&t);
             if let Some(x) = expect_panic(ctx, "coord_add", &format!("coord:{}:add:{}", i, delta), !inside, || c.add(delta)) {
@@ -140,7 +141,7 @@ fn finite_types(ctx: &mut Ctx) {
                 }
             }
         }
-        for df in -9isize..=9 {
+        for df in (-9isize..=9).filter(|d| !light || d % 3 == 0) {
             for dr in -9isize..=9 {
                 ctx.eval(1);
                 let nf = f.index() as isize + df;
@@ -166,7 +167,8 @@ fn finite_types(ctx: &mut Ctx) {
     }
     // from_char over a large slice of the char space
     let mut n = 0u64;
-    for u in (0u32..0x3000).chain([0xFF41, 0x1F600, 0x10FFFF, 0xE000]) {
+    let top = if ctx.light() { 0x200 } else { 0x3000 };
+    for u in (0u32..top).chain([0xFF41, 0x1F600, 0x10FFFF, 0xE000]) {
         let Some(ch) = char::from_u32(u) else { continue };
         n += 4;
         let wf = if ('a'..='h').contains(&ch) { Some(File::from_index(ch as usize - 'a' as usize)) } else { None };
@@ -519,13 +521,21 @@ fn bitboards(ctx: &mut Ctx) {
 }
 
 pub fn run(ctx: &mut Ctx) {
-    if ctx.shard == 0 || ctx.config == "miri" {
+    if ctx.config == "miri" {
+        // one part per shard: the interpreter is too slow for every shard to repeat the sweeps
+        match ctx.shard % 4 {
+            0 => finite_types(ctx),
+            1 => constants(ctx),
+            2 => text_parsers(ctx),
+            _ => bitboards(ctx),
+        }
+        return;
+    }
+    if ctx.shard == 0 {
         finite_types(ctx);
         constants(ctx);
     }
-    if ctx.config != "miri" || ctx.shard < 2 {
-        text_parsers(ctx);
-    }
+    text_parsers(ctx);
     bitboards(ctx);
 }
 
